@@ -28,6 +28,9 @@ ASSUMPTIONS = ["the in-process run and a real subprocess behave alike (a sample 
 DOC = {"a": [1, 2, {"b": "x"}], "s": "é", "n": None, "t": True}
 GOOD_DOC = json.dumps(DOC).encode()
 BAD_DOCS = [b'{"a": ', b'{"a": "\xff\xfe"}', b'']
+# documents whose top-level value is a JSON string - some of them holding text that is itself JSON (the library reads a
+# str ARGUMENT as JSON text, so the front end must hand over the file, not a decoded string)
+STR_DOCS = [b'"[1, 2, 3]"', b'"42"', b'"{"', b'"hello"', b'"null"', b'"{\\"a\\": 1}"']
 PATH_EXPRS = [("$.a[0]", None), ("$..b", None), ("$[?@.b == 'x']", None), ("$.a[?@ > 1]", None), ("$", None), ("$.s", None),
               ("$.a[", "JSONPathSyntaxError"), ("$[?@.a.* == 1]", "JSONPathTypeError"), ("$[?nosuch(@)]", "JSONPathNameError"),
               ("$[9007199254740992]", "JSONPathIndexError"), ("$[?length(@.a) && @.b]", "JSONPathTypeError"), ("$[?@ =~ /(/]", "JSONPathSyntaxError"),
@@ -67,6 +70,17 @@ def gen(rng, tier):
                         continue
                     yield {"cmd": "pointer", "expr": expr, "doc": doc_i, "debug": debug, "pretty": rng.random() < 0.5, "expr_file": from_file,
                            "out_file": rng.random() < 0.3, "nue": rng.random() < 0.2, "uri": rng.random() < 0.3, "stdin": rng.random() < 0.2}
+    for doc_i in range(1 + len(BAD_DOCS), 1 + len(BAD_DOCS) + len(STR_DOCS)):
+        for expr in ("$", "$[0]", "$.a", "$..*", "$[?@ == 1]"):
+            for from_file in (False, True):
+                yield {"cmd": "path", "expr": expr, "doc": doc_i, "debug": rng.random() < 0.3, "pretty": rng.random() < 0.3, "expr_file": from_file,
+                       "out_file": rng.random() < 0.3, "nue": False, "ntc": False, "stdin": rng.random() < 0.3}
+        for expr in ("", "/0", "/a", "/-"):
+            yield {"cmd": "pointer", "expr": expr, "doc": doc_i, "debug": rng.random() < 0.3, "pretty": False, "expr_file": rng.random() < 0.5,
+                   "out_file": rng.random() < 0.3, "nue": False, "uri": False, "stdin": rng.random() < 0.3}
+        for pi in (2, 0, 1, 4):
+            yield {"cmd": "patch", "patch": pi, "doc": doc_i, "debug": rng.random() < 0.3, "pretty": False, "out_file": rng.random() < 0.3,
+                   "nue": False, "uri": False, "stdin": rng.random() < 0.3}
     for pi in range(len(PATCHES)):
         for doc_i in range(1 + len(BAD_DOCS)):
             for debug in (False, True):
@@ -77,7 +91,11 @@ def gen(rng, tier):
 
 
 def doc_bytes(case):
-    return GOOD_DOC if case["doc"] == 0 else BAD_DOCS[case["doc"] - 1]
+    if case["doc"] == 0:
+        return GOOD_DOC
+    if case["doc"] <= len(BAD_DOCS):
+        return BAD_DOCS[case["doc"] - 1]
+    return STR_DOCS[case["doc"] - 1 - len(BAD_DOCS)]
 
 
 def library(case):
@@ -86,6 +104,8 @@ def library(case):
     try:
         doc = json.loads(doc_bytes(case))
         doc_err = None
+        if isinstance(doc, str):
+            doc = io.StringIO(doc_bytes(case).decode("utf-8"))      # the library's entry point for a readable file
     except UnicodeDecodeError:
         doc_err = "UnicodeDecodeError"
     except json.JSONDecodeError:
